@@ -5,7 +5,7 @@ import vlib
 
 
 def scripts_for(tier, rng):
-    n = 6000 if tier == "quick" else 40000
+    n = 18000 if tier == "quick" else 120000
     return [dict(id="f%05d" % i, tasks=rng.choice([1, 2, 2, 3, 4]), raisers=rng.choice([1, 1, 2]),
                  seed=rng.randrange(1 << 40), spurious=rng.random() < 0.3, early=rng.random() < 0.1)
             for i in range(n)]
@@ -44,15 +44,30 @@ def run(prop, tier, rng, only=None):
     scripts = [only] * 200 if only else scripts_for(tier, rng)      # a replay repeats the scenario: threads decide
     by_id = {s["id"]: s for s in scripts}
     d = vlib.workdir("drv_flag")
-    sp, tp = os.path.join(d, "scripts.ndjson"), os.path.join(d, "traces.ndjson")
-    with open(sp, "w") as f:
-        for s in scripts:
-            f.write(json.dumps(s) + "\n")
-    p = subprocess.run([os.path.join(vlib.BIN, "flag_driver"), sp, tp], stdout=subprocess.PIPE, stderr=subprocess.STDOUT,
-                       text=True, timeout=3600)
-    if p.returncode != 0:
-        sys.stderr.write(p.stdout[-3000:])
-        raise vlib.ToolError("flag_driver failed")
+    tp = os.path.join(d, "traces.ndjson")
+    # several driver processes side by side: more scenarios in the same time, and busier cores, which is
+    # what makes a thread lose the processor in the middle of raise() or poll()
+    procs = 1 if only else 6
+
+    def one(i):
+        part = scripts[i::procs]
+        sp = os.path.join(d, "scripts%d.ndjson" % i)
+        with open(sp, "w") as f:
+            for s in part:
+                f.write(json.dumps(s) + "\n")
+        p = subprocess.run([os.path.join(vlib.BIN, "flag_driver"), sp, tp + str(i)], stdout=subprocess.PIPE,
+                           stderr=subprocess.STDOUT, text=True, timeout=3600)
+        if p.returncode != 0:
+            sys.stderr.write(p.stdout[-3000:])
+            raise vlib.ToolError("flag_driver failed")
+
+    from concurrent.futures import ThreadPoolExecutor
+    with ThreadPoolExecutor(max_workers=procs) as ex:
+        list(ex.map(one, range(procs)))
+    with open(tp, "w") as out:
+        for i in range(procs):
+            with open(tp + str(i)) as f:
+                out.write(f.read())
     acc, rej, stats, total = vlib.validate_traces("FlagTrace.tla", "FlagTrace.cfg", tp, "val_flag", shards=6)
     for r in rej:
         sid = r["script"] or ""
